@@ -2,7 +2,7 @@
     instruction list against [Gen], and the observed run against both [Machine] and [Sem]. *)
 From Coq Require Import List ZArith Bool Floats.SpecFloat.
 From RB Require Import Generated.Tables Val.Variant Val.Arith2 Lang.Ast Lang.Sem Lang.NumText
-                       VM.Instr VM.Gen VM.Machine RT.Printer.
+                       VM.Instr VM.Gen VM.Machine VM.Validate RT.Printer.
 Import ListNotations.
 Local Open Scope nat_scope.
 
@@ -84,3 +84,8 @@ Definition check_c01 (dims : list (name * pos)) (p : program) (impl_code : list 
 Definition check_legs (dims : list (name * pos)) (p : program) (impl_code : list ipos) (impl_marks : list nat)
            (o : obs) (stdout : list Z) (gvars : env) (fuel : nat) : list nat :=
   [check_gen dims p impl_code impl_marks; check_vm impl_code o stdout gvars fuel; check_sem dims p o stdout gvars fuel].
+
+(** translation validation: the implementation's own instruction list has the layouts for which
+    [ValidateProofs.check_program_sound] proves agreement with the reference semantics (for runs of any length) *)
+Definition check_valid (dims : list (name * pos)) (p : program) (impl_code : list ipos) : bool :=
+  check_program 64 dims p impl_code.
